@@ -1,7 +1,7 @@
 #!/bin/bash
 # every seeded change against its own property's check, plus the check expected to catch it when that is another one
 declare -A ALT
-ALT[C01-m4]="C14"; ALT[C11-m3]="C10"; ALT[C15-m2]="C06 C13"; ALT[C15-m4]="C13"; ALT[C01-m2]="C14"; ALT[C06-m1]="C12"; ALT[C13-m2]="C06"; ALT[C02-m4]="C08"
+ALT[C01-m4]="C14"; ALT[C01-m5]="C14"; ALT[C08-m5]="C02"; ALT[C11-m5]="C10"; ALT[C15-m5]="C01"; ALT[C11-m3]="C10"; ALT[C15-m2]="C06 C13"; ALT[C15-m4]="C13"; ALT[C01-m2]="C14"; ALT[C06-m1]="C12"; ALT[C13-m2]="C06"; ALT[C02-m4]="C08"
 for d in /verif/seeded/*/; do
   id=$(basename $d); p=${id%%-*}
   /verif/tools/matrix.sh $id $d/patch.diff $p ${ALT[$id]}
